@@ -551,6 +551,16 @@ class Discharger:
                     ic = icmp(strip(sub))
                     if ic is not None and ic[1] is not None and strip(ic[1]) == strip(base_i) and ic[2] == LEN and c_ <= -ic[3] - 1 and c_ >= 0:
                         return "D2 loop-carried index bounded by the loop test"
+                    if ic is not None and ic[1] is not None and strip(ic[1]) == strip(base_i) and ic[2] == LEN and c_ < 0 and l is not None:
+                        # below: the index only grows (+1 per iteration) from an initial value >= -c_ over a non-negative base
+                        init, upd = l.carried.get(base_i[2], (None, None))
+                        ib, ia = affine(init) if init is not None else (None, None)
+                        ub, ua = affine(upd) if upd is not None else (None, None)
+                        grows = upd is not None and strip(ub) == strip(base_i) and ua >= 0
+                        base_ok = ib is None or (ib[0] == "lv" and ob.summary.loops.get(ib[1]) is not None and
+                                                 ob.summary.loops[ib[1]].carried.get(ib[2], (None, None))[0] == ("const", 0))
+                        if grows and ia is not None and ia >= -c_ and base_ok:
+                            return "D2 loop-carried index bounded above by the loop test and below by its initial value (it only grows)"
         return None
 
     def discharge_format(self, ob: Obligation) -> Optional[str]:
